@@ -14,7 +14,7 @@ def fn_NewBufferedWatcher : List SkOp := [
     ⟨"makeChan", "Event", ["sz"], []⟩,
     ⟨"makeChan", "error", ["0"], []⟩,
     ⟨"call", "newBackend", [], []⟩,
-    ⟨"ifBegin", "%1 != nil", [], []⟩,
+    ⟨"ifBegin", "%1!=nil", [], []⟩,
     ⟨"ret", "nil, %1", [], []⟩,
     ⟨"ifEnd", "", [], []⟩,
     ⟨"ret", "&Watcher{b: %2, Events: %3, Errors: %4}, nil", [], []⟩
@@ -24,7 +24,7 @@ def fn_NewWatcher : List SkOp := [
     ⟨"makeChan", "Event", ["defaultBufferSize"], []⟩,
     ⟨"makeChan", "error", ["0"], []⟩,
     ⟨"call", "newBackend", [], []⟩,
-    ⟨"ifBegin", "%1 != nil", [], []⟩,
+    ⟨"ifBegin", "%1!=nil", [], []⟩,
     ⟨"ret", "nil, %1", [], []⟩,
     ⟨"ifEnd", "", [], []⟩,
     ⟨"ret", "&Watcher{b: %2, Events: %3, Errors: %4}, nil", [], []⟩
@@ -56,22 +56,22 @@ def fn_inotify_AddWith : List SkOp := [
     ⟨"call", "recursivePath", [], ["mu"]⟩,
     ⟨"ifBegin", "%3", [], ["mu"]⟩,
     ⟨"litBegin", "", [], ["mu"]⟩,
-    ⟨"ifBegin", "%4 != nil", [], ["mu"]⟩,
+    ⟨"ifBegin", "%4!=nil", [], ["mu"]⟩,
     ⟨"ret", "%4", [], ["mu"]⟩,
     ⟨"ifEnd", "", [], ["mu"]⟩,
     ⟨"ifBegin", "!%5.IsDir()", [], ["mu"]⟩,
-    ⟨"ifBegin", "%6 == %7", [], ["mu"]⟩,
+    ⟨"ifBegin", "%6==%7", [], ["mu"]⟩,
     ⟨"ret", "fmt.Errorf(\"fsnotify: not a directory: %q\", %7)", [], ["mu"]⟩,
     ⟨"ifEnd", "", [], ["mu"]⟩,
     ⟨"ret", "nil", [], ["mu"]⟩,
     ⟨"ifEnd", "", [], ["mu"]⟩,
-    ⟨"ifBegin", "%2.sendCreate && %6 != %7", [], ["mu"]⟩,
+    ⟨"ifBegin", "%2.sendCreate&&%6!=%7", [], ["mu"]⟩,
     ⟨"call", "sendEvent", [], ["mu"]⟩,
     ⟨"ifEnd", "", [], ["mu"]⟩,
     ⟨"call", "AddWith$add", [], ["mu"]⟩,
     ⟨"ret", "%8(%6, %2, true)", [], ["mu"]⟩,
     ⟨"litEnd", "", [], ["mu"]⟩,
-    ⟨"ret", "filepath.WalkDir(%7, func(%6 string, %5 fs.DirEntry, %4 error) error { if %4 != nil { return %4 } if !%5.IsDir() { if %6 == %7 { return fmt.Errorf(\"fsnotify: not a directory: %q\", %7) } return nil } if %2.sendCreate && %6 != %7 { %1.sendEvent(Event{Name: %6, Op: Create}) } return %8(%6, %2, true) })", [], ["mu"]⟩,
+    ⟨"ret", "filepath.WalkDir(%7, func(%6 string, %5 fs.DirEntry, %4 error) error { if %4!=nil { return %4 } if !%5.IsDir() { if %6==%7 { return fmt.Errorf(\"fsnotify: not a directory: %q\", %7) } return nil } if %2.sendCreate&&%6!=%7 { %1.sendEvent(Event{Name: %6, Op: Create}) } return %8(%6, %2, true) })", [], ["mu"]⟩,
     ⟨"ifEnd", "", [], ["mu"]⟩,
     ⟨"call", "AddWith$add", [], ["mu"]⟩,
     ⟨"ret", "%8(%7, %2, false)", [], ["mu"]⟩
@@ -117,7 +117,7 @@ def fn_inotify_Close : List SkOp := [
     ⟨"ret", "nil", [], []⟩,
     ⟨"ifEnd", "", [], []⟩,
     ⟨"fileOp", "Close", [], []⟩,
-    ⟨"ifBegin", "%2 != nil", [], []⟩,
+    ⟨"ifBegin", "%2!=nil", [], []⟩,
     ⟨"ret", "%2", [], []⟩,
     ⟨"ifEnd", "", [], []⟩,
     ⟨"recv", "doneResp", [], []⟩,
@@ -159,33 +159,33 @@ def fn_inotify_handleEvent : List SkOp := [
     ⟨"lock", "mu", [], []⟩,
     ⟨"deferUnlock", "mu", [], ["mu"]⟩,
     ⟨"call", "byWd", [], ["mu"]⟩,
-    ⟨"ifBegin", "%1 == nil", [], ["mu"]⟩,
+    ⟨"ifBegin", "%1==nil", [], ["mu"]⟩,
     ⟨"ret", "Event{}, true", [], ["mu"]⟩,
     ⟨"ifEnd", "", [], ["mu"]⟩,
-    ⟨"ifBegin", "%2 > 0", [], ["mu"]⟩,
+    ⟨"ifBegin", "%2>0", [], ["mu"]⟩,
     ⟨"ifEnd", "", [], ["mu"]⟩,
     ⟨"ifBegin", "debug", [], ["mu"]⟩,
     ⟨"ifEnd", "", [], ["mu"]⟩,
-    ⟨"ifBegin", "%3.Mask&unix.IN_IGNORED != 0 || %3.Mask&unix.IN_UNMOUNT != 0", [], ["mu"]⟩,
+    ⟨"ifBegin", "%3.Mask&unix.IN_IGNORED!=0||%3.Mask&unix.IN_UNMOUNT!=0", [], ["mu"]⟩,
     ⟨"call", "remove", [], ["mu"]⟩,
     ⟨"ret", "Event{}, true", [], ["mu"]⟩,
     ⟨"ifEnd", "", [], ["mu"]⟩,
-    ⟨"ifBegin", "%3.Mask&unix.IN_DELETE_SELF == unix.IN_DELETE_SELF", [], ["mu"]⟩,
+    ⟨"ifBegin", "%3.Mask&unix.IN_DELETE_SELF==unix.IN_DELETE_SELF", [], ["mu"]⟩,
     ⟨"call", "remove", [], ["mu"]⟩,
     ⟨"ifEnd", "", [], ["mu"]⟩,
-    ⟨"ifBegin", "%3.Mask&unix.IN_MOVE_SELF == unix.IN_MOVE_SELF", [], ["mu"]⟩,
+    ⟨"ifBegin", "%3.Mask&unix.IN_MOVE_SELF==unix.IN_MOVE_SELF", [], ["mu"]⟩,
     ⟨"ifBegin", "%1.recurse", [], ["mu"]⟩,
     ⟨"ret", "Event{}, true", [], ["mu"]⟩,
     ⟨"ifEnd", "", [], ["mu"]⟩,
     ⟨"call", "remove", [], ["mu"]⟩,
-    ⟨"ifBegin", "%4 != nil && !errors.Is(%4, ErrNonExistentWatch) && !errors.Is(%4, unix.EINVAL)", [], ["mu"]⟩,
+    ⟨"ifBegin", "%4!=nil&&!errors.Is(%4, ErrNonExistentWatch)&&!errors.Is(%4, unix.EINVAL)", [], ["mu"]⟩,
     ⟨"call", "sendError", [], ["mu"]⟩,
     ⟨"ifBegin", "!%5.sendError(%4)", [], ["mu"]⟩,
     ⟨"ret", "Event{}, false", [], ["mu"]⟩,
     ⟨"ifEnd", "", [], ["mu"]⟩,
     ⟨"ifEnd", "", [], ["mu"]⟩,
     ⟨"ifEnd", "", [], ["mu"]⟩,
-    ⟨"ifBegin", "%3.Mask&unix.IN_DELETE_SELF != 0", [], ["mu"]⟩,
+    ⟨"ifBegin", "%3.Mask&unix.IN_DELETE_SELF!=0", [], ["mu"]⟩,
     ⟨"table", "watches.path", [], ["mu"]⟩,
     ⟨"ifBegin", "%6", [], ["mu"]⟩,
     ⟨"ret", "Event{}, true", [], ["mu"]⟩,
@@ -194,16 +194,16 @@ def fn_inotify_handleEvent : List SkOp := [
     ⟨"call", "newEvent", [], ["mu"]⟩,
     ⟨"ifBegin", "%1.recurse", [], ["mu"]⟩,
     ⟨"call", "Has", [], ["mu"]⟩,
-    ⟨"ifBegin", "%7 && %8.Has(Create)", [], ["mu"]⟩,
+    ⟨"ifBegin", "%7&&%8.Has(Create)", [], ["mu"]⟩,
     ⟨"call", "register", [], ["mu"]⟩,
     ⟨"call", "sendError", [], ["mu"]⟩,
     ⟨"ifBegin", "!%5.sendError(%9)", [], ["mu"]⟩,
     ⟨"ret", "Event{}, false", [], ["mu"]⟩,
     ⟨"ifEnd", "", [], ["mu"]⟩,
-    ⟨"ifBegin", "%8.renamedFrom != \"\"", [], ["mu"]⟩,
+    ⟨"ifBegin", "%8.renamedFrom!=\"\"", [], ["mu"]⟩,
     ⟨"table", "watches.wd", [], ["mu"]⟩,
     ⟨"loopBegin", "range %5.watches.wd", [], ["mu"]⟩,
-    ⟨"ifBegin", "%10.path == %8.renamedFrom || strings.HasPrefix(%10.path, %8.renamedFrom+\"/\")", [], ["mu"]⟩,
+    ⟨"ifBegin", "%10.path==%8.renamedFrom||strings.HasPrefix(%10.path, %8.renamedFrom+\"/\")", [], ["mu"]⟩,
     ⟨"table", "watches.path", [], ["mu"]⟩,
     ⟨"table", "watches.path", [], ["mu"]⟩,
     ⟨"ifEnd", "", [], ["mu"]⟩,
@@ -216,48 +216,48 @@ def fn_inotify_handleEvent : List SkOp := [
 
 def fn_inotify_isRecursive : List SkOp := [
     ⟨"call", "byPath", [], []⟩,
-    ⟨"ifBegin", "%1 == nil", [], []⟩,
+    ⟨"ifBegin", "%1==nil", [], []⟩,
     ⟨"call", "byPath", [], []⟩,
     ⟨"ifEnd", "", [], []⟩,
-    ⟨"ret", "%1 != nil && %1.recurse", [], []⟩
+    ⟨"ret", "%1!=nil&&%1.recurse", [], []⟩
 ]
 
 def fn_inotify_newEvent : List SkOp := [
-    ⟨"ifBegin", "%1&unix.IN_CREATE == unix.IN_CREATE || %1&unix.IN_MOVED_TO == unix.IN_MOVED_TO", [], []⟩,
+    ⟨"ifBegin", "%1&unix.IN_CREATE==unix.IN_CREATE||%1&unix.IN_MOVED_TO==unix.IN_MOVED_TO", [], []⟩,
     ⟨"ifEnd", "", [], []⟩,
-    ⟨"ifBegin", "%1&unix.IN_DELETE_SELF == unix.IN_DELETE_SELF || %1&unix.IN_DELETE == unix.IN_DELETE", [], []⟩,
+    ⟨"ifBegin", "%1&unix.IN_DELETE_SELF==unix.IN_DELETE_SELF||%1&unix.IN_DELETE==unix.IN_DELETE", [], []⟩,
     ⟨"ifEnd", "", [], []⟩,
-    ⟨"ifBegin", "%1&unix.IN_MODIFY == unix.IN_MODIFY", [], []⟩,
+    ⟨"ifBegin", "%1&unix.IN_MODIFY==unix.IN_MODIFY", [], []⟩,
     ⟨"ifEnd", "", [], []⟩,
-    ⟨"ifBegin", "%1&unix.IN_OPEN == unix.IN_OPEN", [], []⟩,
+    ⟨"ifBegin", "%1&unix.IN_OPEN==unix.IN_OPEN", [], []⟩,
     ⟨"ifEnd", "", [], []⟩,
-    ⟨"ifBegin", "%1&unix.IN_ACCESS == unix.IN_ACCESS", [], []⟩,
+    ⟨"ifBegin", "%1&unix.IN_ACCESS==unix.IN_ACCESS", [], []⟩,
     ⟨"ifEnd", "", [], []⟩,
-    ⟨"ifBegin", "%1&unix.IN_CLOSE_WRITE == unix.IN_CLOSE_WRITE", [], []⟩,
+    ⟨"ifBegin", "%1&unix.IN_CLOSE_WRITE==unix.IN_CLOSE_WRITE", [], []⟩,
     ⟨"ifEnd", "", [], []⟩,
-    ⟨"ifBegin", "%1&unix.IN_CLOSE_NOWRITE == unix.IN_CLOSE_NOWRITE", [], []⟩,
+    ⟨"ifBegin", "%1&unix.IN_CLOSE_NOWRITE==unix.IN_CLOSE_NOWRITE", [], []⟩,
     ⟨"ifEnd", "", [], []⟩,
-    ⟨"ifBegin", "%1&unix.IN_MOVE_SELF == unix.IN_MOVE_SELF || %1&unix.IN_MOVED_FROM == unix.IN_MOVED_FROM", [], []⟩,
+    ⟨"ifBegin", "%1&unix.IN_MOVE_SELF==unix.IN_MOVE_SELF||%1&unix.IN_MOVED_FROM==unix.IN_MOVED_FROM", [], []⟩,
     ⟨"ifEnd", "", [], []⟩,
-    ⟨"ifBegin", "%1&unix.IN_ATTRIB == unix.IN_ATTRIB", [], []⟩,
+    ⟨"ifBegin", "%1&unix.IN_ATTRIB==unix.IN_ATTRIB", [], []⟩,
     ⟨"ifEnd", "", [], []⟩,
-    ⟨"ifBegin", "%2 != 0", [], []⟩,
-    ⟨"ifBegin", "%1&unix.IN_MOVED_FROM == unix.IN_MOVED_FROM", [], []⟩,
+    ⟨"ifBegin", "%2!=0", [], []⟩,
+    ⟨"ifBegin", "%1&unix.IN_MOVED_FROM==unix.IN_MOVED_FROM", [], []⟩,
     ⟨"lock", "cookiesMu", [], []⟩,
     ⟨"table", "cookieIndex", [], ["cookiesMu"]⟩,
     ⟨"table", "cookies", [], ["cookiesMu"]⟩,
     ⟨"table", "cookieIndex", [], ["cookiesMu"]⟩,
     ⟨"table", "cookieIndex", [], ["cookiesMu"]⟩,
-    ⟨"ifBegin", "%3.cookieIndex > 9", [], ["cookiesMu"]⟩,
+    ⟨"ifBegin", "%3.cookieIndex>9", [], ["cookiesMu"]⟩,
     ⟨"table", "cookieIndex", [], ["cookiesMu"]⟩,
     ⟨"ifEnd", "", [], ["cookiesMu"]⟩,
     ⟨"unlock", "cookiesMu", [], ["cookiesMu"]⟩,
     ⟨"elseBegin", "", [], []⟩,
-    ⟨"ifBegin", "%1&unix.IN_MOVED_TO == unix.IN_MOVED_TO", [], []⟩,
+    ⟨"ifBegin", "%1&unix.IN_MOVED_TO==unix.IN_MOVED_TO", [], []⟩,
     ⟨"lock", "cookiesMu", [], []⟩,
     ⟨"table", "cookies", [], ["cookiesMu"]⟩,
     ⟨"loopBegin", "range %3.cookies", [], ["cookiesMu"]⟩,
-    ⟨"ifBegin", "%4.cookie == %2", [], ["cookiesMu"]⟩,
+    ⟨"ifBegin", "%4.cookie==%2", [], ["cookiesMu"]⟩,
     ⟨"branch", "break", [], ["cookiesMu"]⟩,
     ⟨"ifEnd", "", [], ["cookiesMu"]⟩,
     ⟨"loopEnd", "", [], ["cookiesMu"]⟩,
@@ -280,7 +280,7 @@ def fn_inotify_readEvents : List SkOp := [
     ⟨"ret", "", [], []⟩,
     ⟨"ifEnd", "", [], []⟩,
     ⟨"fileOp", "Read", [], []⟩,
-    ⟨"ifBegin", "%2 != nil", [], []⟩,
+    ⟨"ifBegin", "%2!=nil", [], []⟩,
     ⟨"ifBegin", "errors.Is(%2, os.ErrClosed)", [], []⟩,
     ⟨"ret", "", [], []⟩,
     ⟨"ifEnd", "", [], []⟩,
@@ -290,8 +290,8 @@ def fn_inotify_readEvents : List SkOp := [
     ⟨"ifEnd", "", [], []⟩,
     ⟨"branch", "continue", [], []⟩,
     ⟨"ifEnd", "", [], []⟩,
-    ⟨"ifBegin", "%3 < unix.SizeofInotifyEvent", [], []⟩,
-    ⟨"ifBegin", "%3 == 0", [], []⟩,
+    ⟨"ifBegin", "%3<unix.SizeofInotifyEvent", [], []⟩,
+    ⟨"ifBegin", "%3==0", [], []⟩,
     ⟨"ifEnd", "", [], []⟩,
     ⟨"call", "sendError", [], []⟩,
     ⟨"ifBegin", "!%1.sendError(%4)", [], []⟩,
@@ -299,8 +299,8 @@ def fn_inotify_readEvents : List SkOp := [
     ⟨"ifEnd", "", [], []⟩,
     ⟨"branch", "continue", [], []⟩,
     ⟨"ifEnd", "", [], []⟩,
-    ⟨"loopBegin", "%5 <= uint32(%3-unix.SizeofInotifyEvent)", [], []⟩,
-    ⟨"ifBegin", "%6.Mask&unix.IN_Q_OVERFLOW != 0", [], []⟩,
+    ⟨"loopBegin", "%5<=uint32(%3-unix.SizeofInotifyEvent)", [], []⟩,
+    ⟨"ifBegin", "%6.Mask&unix.IN_Q_OVERFLOW!=0", [], []⟩,
     ⟨"call", "sendError", [], []⟩,
     ⟨"ifBegin", "!%1.sendError(ErrEventOverflow)", [], []⟩,
     ⟨"ret", "", [], []⟩,
@@ -320,36 +320,36 @@ def fn_inotify_readEvents : List SkOp := [
 
 def fn_inotify_register : List SkOp := [
     ⟨"litBegin", "", [], []⟩,
-    ⟨"ifBegin", "%1 != nil", [], []⟩,
+    ⟨"ifBegin", "%1!=nil", [], []⟩,
     ⟨"ifEnd", "", [], []⟩,
     ⟨"sys", "InotifyAddWatch", ["w.fd"], []⟩,
-    ⟨"ifBegin", "%2 == -1", [], []⟩,
+    ⟨"ifBegin", "%2==-1", [], []⟩,
     ⟨"ret", "nil, %3", [], []⟩,
     ⟨"ifEnd", "", [], []⟩,
-    ⟨"ifBegin", "%1 != nil && %1.wd != uint32(%2)", [], []⟩,
+    ⟨"ifBegin", "%1!=nil&&%1.wd!=uint32(%2)", [], []⟩,
     ⟨"sys", "InotifyRmWatch", ["w.fd"], []⟩,
     ⟨"ifEnd", "", [], []⟩,
     ⟨"table", "watches.wd", [], []⟩,
     ⟨"ifBegin", "%4", [], []⟩,
     ⟨"ret", "%5, nil", [], []⟩,
     ⟨"ifEnd", "", [], []⟩,
-    ⟨"ifBegin", "%1 == nil", [], []⟩,
+    ⟨"ifBegin", "%1==nil", [], []⟩,
     ⟨"ret", "&watch{ wd: uint32(%2), path: %6, flags: %7, recurse: %8, }, nil", [], []⟩,
     ⟨"ifEnd", "", [], []⟩,
     ⟨"ret", "%1, nil", [], []⟩,
     ⟨"litEnd", "", [], []⟩,
     ⟨"call", "updatePath", [], []⟩,
-    ⟨"ret", "%9.watches.updatePath(%6, func(%1 *watch) (*watch, error) { if %1 != nil { %7 |= %1.flags | unix.IN_MASK_ADD } %2, %3 := unix.InotifyAddWatch(%9.fd, %6, %7) if %2 == -1 { return nil, %3 } if %1 != nil && %1.wd != uint32(%2) { unix.InotifyRmWatch(%9.fd, %1.wd) } if %5, %4 := %9.watches.wd[uint32(%2)]; %4 { return %5, nil } if %1 == nil { return &watch{ wd: uint32(%2), path: %6, flags: %7, recurse: %8, }, nil } %1.wd = uint32(%2) %1.flags = %7 return %1, nil })", [], []⟩
+    ⟨"ret", "%9.watches.updatePath(%6, func(%1*watch) (*watch, error) { if %1!=nil { %7|= %1.flags|unix.IN_MASK_ADD } %2, %3 := unix.InotifyAddWatch(%9.fd, %6, %7) if %2==-1 { return nil, %3 } if %1!=nil&&%1.wd!=uint32(%2) { unix.InotifyRmWatch(%9.fd, %1.wd) } if %5, %4 := %9.watches.wd[uint32(%2)]; %4 { return %5, nil } if %1==nil { return&watch{ wd: uint32(%2), path: %6, flags: %7, recurse: %8, }, nil } %1.wd = uint32(%2) %1.flags = %7 return %1, nil })", [], []⟩
 ]
 
 def fn_inotify_remove : List SkOp := [
     ⟨"call", "removePath", [], []⟩,
-    ⟨"ifBegin", "%1 != nil", [], []⟩,
+    ⟨"ifBegin", "%1!=nil", [], []⟩,
     ⟨"ret", "%1", [], []⟩,
     ⟨"ifEnd", "", [], []⟩,
     ⟨"loopBegin", "range %2", [], []⟩,
     ⟨"sys", "InotifyRmWatch", ["w.fd"], []⟩,
-    ⟨"ifBegin", "%3 != nil", [], []⟩,
+    ⟨"ifBegin", "%3!=nil", [], []⟩,
     ⟨"ret", "%3", [], []⟩,
     ⟨"ifEnd", "", [], []⟩,
     ⟨"loopEnd", "", [], []⟩,
@@ -370,7 +370,7 @@ def fn_inotify_xSupports : List SkOp := [
 
 def fn_newBackend : List SkOp := [
     ⟨"sys", "InotifyInit1", ["unix.IN_CLOEXEC | unix.IN_NONBLOCK"], []⟩,
-    ⟨"ifBegin", "%1 == -1", [], []⟩,
+    ⟨"ifBegin", "%1==-1", [], []⟩,
     ⟨"ret", "nil, %2", [], []⟩,
     ⟨"ifEnd", "", [], []⟩,
     ⟨"call", "newShared", [], []⟩,
@@ -412,7 +412,7 @@ def fn_shared_isClosed : List SkOp := [
 ]
 
 def fn_shared_sendError : List SkOp := [
-    ⟨"ifBegin", "%1 == nil", [], []⟩,
+    ⟨"ifBegin", "%1==nil", [], []⟩,
     ⟨"ret", "true", [], []⟩,
     ⟨"ifEnd", "", [], []⟩,
     ⟨"select", "recv:done|send:Errors", [], []⟩,
@@ -425,7 +425,7 @@ def fn_shared_sendError : List SkOp := [
 ]
 
 def fn_shared_sendEvent : List SkOp := [
-    ⟨"ifBegin", "%1.Op == 0", [], []⟩,
+    ⟨"ifBegin", "%1.Op==0", [], []⟩,
     ⟨"ret", "true", [], []⟩,
     ⟨"ifEnd", "", [], []⟩,
     ⟨"select", "recv:done|send:Events", [], []⟩,
@@ -470,8 +470,8 @@ def fn_watches_removePath : List SkOp := [
     ⟨"ret", "nil, fmt.Errorf(\"%w: %s\", ErrNonExistentWatch, %2)", [], []⟩,
     ⟨"ifEnd", "", [], []⟩,
     ⟨"table", "watches.wd", [], []⟩,
-    ⟨"ifBegin", "%3 && !%4.recurse", [], []⟩,
-    ⟨"ret", "nil, fmt.Errorf(\"can't use /... with non-recursive watch %q\", %2)", [], []⟩,
+    ⟨"ifBegin", "%3&&!%4.recurse", [], []⟩,
+    ⟨"ret", "nil, fmt.Errorf(\"can't use/... with non-recursive watch %q\", %2)", [], []⟩,
     ⟨"ifEnd", "", [], []⟩,
     ⟨"table", "watches.path", [], []⟩,
     ⟨"table", "watches.wd", [], []⟩,
@@ -494,15 +494,15 @@ def fn_watches_updatePath : List SkOp := [
     ⟨"table", "watches.wd", [], []⟩,
     ⟨"ifEnd", "", [], []⟩,
     ⟨"callVar", "f", [], []⟩,
-    ⟨"ifBegin", "%2 != nil", [], []⟩,
+    ⟨"ifBegin", "%2!=nil", [], []⟩,
     ⟨"ret", "%2", [], []⟩,
     ⟨"ifEnd", "", [], []⟩,
-    ⟨"ifBegin", "%3 != nil", [], []⟩,
+    ⟨"ifBegin", "%3!=nil", [], []⟩,
     ⟨"table", "watches.wd", [], []⟩,
     ⟨"table", "watches.path", [], []⟩,
-    ⟨"ifBegin", "%3.wd != %4", [], []⟩,
+    ⟨"ifBegin", "%3.wd!=%4", [], []⟩,
     ⟨"table", "watches.wd", [], []⟩,
-    ⟨"ifBegin", "%1 && %3.path != %5", [], []⟩,
+    ⟨"ifBegin", "%1&&%3.path!=%5", [], []⟩,
     ⟨"table", "watches.path", [], []⟩,
     ⟨"ifEnd", "", [], []⟩,
     ⟨"ifEnd", "", [], []⟩,
